@@ -7,7 +7,7 @@ def _shared_exp():
     """shared EXPORTER stream of the lifecycle harness: on when the tree has the repaired ShutdownAll (exporters last;
     fix commit 'shut exporters down after every other pipeline component'), otherwise off; VERIF_C10_SHARED_EXP=1/0 forces it.
     Once the fix is in /repo the default below should become "1" so that losing the fix is a violation again."""
-    v = os.environ.get("VERIF_C10_SHARED_EXP", "auto")
+    v = os.environ.get("VERIF_C10_SHARED_EXP", "1")  # the fix is in /repo: losing it is a violation again
     if v != "auto":
         return v
     try:
